@@ -136,6 +136,7 @@ func scenarioShutdown(w *world) {
 					return
 				}
 				m := w.newMsg(d.tx, 1+tp.intn(200), false)
+				m.unordered, m.relType, m.relVal = d.curUnordered, d.relType, d.relVal
 				x.index[m.ppi] = m
 				m.stateAtInvoke = accState(w.eps[d.from].assoc)
 				d.msgs = append(d.msgs, m)
